@@ -345,14 +345,16 @@ def differs(op, a, b, want_kinds=None):
     return sorted(k for k in set(ra) | set(rb) if ra.get(k) != rb.get(k))
 
 
-def minimise(batch, mm, budget):
+def minimise(batch, mm, budget, neuts=()):
     """Reduce a mismatch to: one op, two configurations, shortest histories,
     fewest differing knobs, smallest program."""
     i, kinds, ra, pa, rb, pb = mm
     op = dict(batch["ops"][i])
     runs = batch["runs"]
-    a = (dict(runs[ra]["cfg"]), [batch["ops"][j] for j in runs[ra]["seq"][:pa]])
-    b = (dict(runs[rb]["cfg"]), [batch["ops"][j] for j in runs[rb]["seq"][:pb]])
+    a = (dict(runs[ra]["cfg"], neutralise=list(neuts)),
+         [batch["ops"][j] for j in runs[ra]["seq"][:pa]])
+    b = (dict(runs[rb]["cfg"], neutralise=list(neuts)),
+         [batch["ops"][j] for j in runs[rb]["seq"][:pb]])
     steps = []
 
     def still(a2, b2, op2=None):
@@ -389,7 +391,8 @@ def minimise(batch, mm, budget):
     # 2. knobs: canonical configuration on either side if possible, then
     #    make b equal to a one knob at a time
     canon = {"hashseed": 0, "idhash": None, "noise": 0,
-             "clock": {"start": 1.0e9, "step": 0.0}}
+             "clock": {"start": 1.0e9, "step": 0.0},
+             "neutralise": list(neuts)}
     if a[0] != canon and still((canon, a[1]), b):
         a = (canon, a[1])
         steps.append("side a canonical")
@@ -590,58 +593,109 @@ def explore(tier, seed, args, sw):
                          [b["ops"][i] for i in run["seq"][:-1]]}}
         path = report.write_replay(PROP, f"rerun-seed{seed}-b{bi}", payload)
         new_paths.append(("same-config-rerun", path, payload["detail"]))
-    raw_known = 0
-    for bi, m in all_mm:
+    # ---- attribution: every mismatch is either explained by a listed
+    # finding or reported.  The batches that show mismatches are executed
+    # once more with the neutralisers of all listed findings active; whatever
+    # still differs then is new.
+    neuts = [NEUTRALISERS[f] for f in known if f in NEUTRALISERS]
+    residual = list(all_mm)
+    explained = 0
+    if all_mm and neuts:
+        affected = sorted({bi for bi, _ in all_mm})
+        njobs = [(bi, ri) for bi in affected
+                 for ri in range(len(batches[bi]["runs"]))]
+
+        def do_neut(job):
+            bi, ri = job
+            b = batches[bi]
+            run = b["runs"][ri]
+            return run_worker(dict(run["cfg"], neutralise=neuts),
+                              [b["ops"][i] for i in run["seq"]])
+
+        with ThreadPoolExecutor(max_workers=workers) as ex:
+            nouts = list(ex.map(do_neut, njobs))
+        per_n = {}
+        for (bi, ri), res in zip(njobs, nouts):
+            per_n.setdefault(bi, {})[ri] = res
+        residual = []
+        for bi in affected:
+            b = batches[bi]
+            results = [per_n[bi][ri] for ri in range(len(b["runs"]))]
+            _, _, mm, _ = compare_batch(b, results)
+            residual += [(bi, m) for m in mm]
+        explained = len(all_mm) - len(residual)
+        if explained > 0:
+            # which listed finding(s): test the neutralisers one at a time on
+            # a few of the explained mismatches
+            res_keys = {(bi, m[0]) for bi, m in residual}
+            tested = 0
+            for bi, m in all_mm:
+                if (bi, m[0]) in res_keys or tested >= 3:
+                    continue
+                tested += 1
+                i, kinds, ra, pa, rb, pb = m
+                bt = batches[bi]
+                raw = {"op": bt["ops"][i],
+                       "a": {"cfg": bt["runs"][ra]["cfg"], "history":
+                             [bt["ops"][j]
+                              for j in bt["runs"][ra]["seq"][:pa]]},
+                       "b": {"cfg": bt["runs"][rb]["cfg"], "history":
+                             [bt["ops"][j]
+                              for j in bt["runs"][rb]["seq"][:pb]]}}
+                fid = classify(raw, {}, known)
+                if fid is not None:
+                    known_seen.setdefault(
+                        fid, f"{raw['op']['id']} outputs {kinds} differ "
+                             f"between run {ra} (position {pa}) and run {rb} "
+                             f"(position {pb}) of batch {bi}")
+            if not known_seen:
+                for fid in known:
+                    if fid in NEUTRALISERS:
+                        known_seen[fid] = "explained by batch re-execution"
+    # ---- the residue is new: minimise one representative per class, but
+    # report every residual mismatch even when the budget runs out
+    reported_batches = set()
+    for bi, m in residual:
         if budget[0] <= 0 or len(classes) >= 6:
             break
-        # cheap first: does the raw mismatch vanish under the neutraliser of
-        # a listed finding?  then it needs no minimisation
-        i, kinds, ra, pa, rb, pb = m
-        bt = batches[bi]
-        raw = {"op": bt["ops"][i],
-               "a": {"cfg": bt["runs"][ra]["cfg"], "history":
-                     [bt["ops"][j] for j in bt["runs"][ra]["seq"][:pa]]},
-               "b": {"cfg": bt["runs"][rb]["cfg"], "history":
-                     [bt["ops"][j] for j in bt["runs"][rb]["seq"][:pb]]}}
-        if raw_known < 40:
-            fid = classify(raw, {}, known)
-            if fid is not None:
-                raw_known += 1
-                known_seen.setdefault(
-                    fid, f"{raw['op']['id']} outputs {kinds} differ between "
-                         f"run {ra} (position {pa}) and run {rb} (position "
-                         f"{pb}) of batch {bi}")
-                continue
-        rp = minimise(batches[bi], m, budget)
+        rp = minimise(batches[bi], m, budget, neuts)
         if rp is None:
             continue
         loc = localise(rp)
         site = site_of(loc)
         key = f"{rp['op']['march']}:{site}"
         if key in classes:
+            reported_batches.add(bi)
             continue
         classes[key] = True
-        fid = classify(rp, loc, known)
         detail = (f"{rp['op']['id']} outputs {rp['kinds']} differ between "
                   f"cfg {rp['a']['cfg']} (history {len(rp['a']['history'])}) "
                   f"and cfg {rp['b']['cfg']} (history "
                   f"{len(rp['b']['history'])}); first divergence: {site}")
-        if fid is not None:
-            known_seen[fid] = detail
-            continue
         rp.update({"property": PROP, "key": key, "detail": detail,
                    "localisation": loc, "verif_seed": seed, "batch": bi})
         path = report.write_replay(
             PROP, f"{key.replace(':', '_')}-seed{seed}-b{bi}", rp)
         new_paths.append((key, path, detail))
-    if all_mm and not new_paths and not known_seen:
-        # mismatches that could not be reduced to (config, history): still a
-        # violation; record the raw batch
-        bi, m = all_mm[0]
-        payload = {"property": PROP, "key": "raw", "batch": batches[bi],
-                   "mismatch": m}
-        path = report.write_replay(PROP, f"raw-seed{seed}-b{bi}", payload)
-        new_paths.append(("raw", path, f"batch {bi} mismatch {m[:2]}"))
+        reported_batches.add(bi)
+    if residual and not new_paths:
+        # could not be reduced (budget / reproducibility): still a violation
+        bi, m = residual[0]
+        i, kinds, ra, pa, rb, pb = m
+        bt = batches[bi]
+        payload = {"property": PROP, "key": "unreduced",
+                   "op": bt["ops"][i],
+                   "a": {"cfg": dict(bt["runs"][ra]["cfg"], neutralise=neuts),
+                         "history": [bt["ops"][j]
+                                     for j in bt["runs"][ra]["seq"][:pa]]},
+                   "b": {"cfg": dict(bt["runs"][rb]["cfg"], neutralise=neuts),
+                         "history": [bt["ops"][j]
+                                     for j in bt["runs"][rb]["seq"][:pb]]},
+                   "detail": f"{bt['ops'][i]['id']} outputs {kinds} differ "
+                             f"between two runs of batch {bi} (not reduced)"}
+        path = report.write_replay(PROP, f"unreduced-seed{seed}-b{bi}",
+                                   payload)
+        new_paths.append(("unreduced", path, payload["detail"]))
 
     for fid in sorted(known_seen):
         print(f"KNOWN-FINDING: property={PROP} {fid}: "
@@ -674,6 +728,8 @@ def explore(tier, seed, args, sw):
         "successful_compilations": ok,
         "subjects_x_targets": sum(len(b["ops"]) for b in batches),
         "mismatching_executions": len(all_mm),
+        "mismatches_explained_by_known_findings": explained,
+        "mismatches_unexplained": len(residual),
         "seeds": {"VERIF_SEED": seed, "batches": [0, nb - 1]},
         "faults_fired": {
             "hash_seed_changed": sum(
